@@ -142,6 +142,7 @@ var globalKeys = []annChoice{
 
 // GenOptions restrict and bias the generator for one profile.
 type GenOptions struct {
+	TCPConfigMap bool // the run has a tcp-services ConfigMap (ctl.TCPConfigMap must be set as well)
 	SvcAnnChance int // a Service gets each of its keys with chance 1/SvcAnnChance (default 5)
 	// key allow-lists; nil = all
 	IngressKeys []string
@@ -860,6 +861,13 @@ func GenerateRun(seed uint64, opt GenOptions) (*World, []Op) {
 	if g.opt.W == nil {
 		g.opt.W = defaultWeights
 	}
+	if g.opt.TCPConfigMap && g.opt.W["tcpcm_change"] == 0 {
+		w := map[string]int{"tcpcm_change": 5}
+		for k, v := range g.opt.W {
+			w[k] = v
+		}
+		g.opt.W = w
+	}
 	if g.opt.MaxIngresses == 0 {
 		g.opt.MaxIngresses = 5
 	}
@@ -949,6 +957,9 @@ func GenerateRun(seed uint64, opt GenOptions) (*World, []Op) {
 		g.emit(mkIngressClass("other", "example.com/other", ""), "")
 	}
 	g.emit(mkConfigMap(globalConfigMapName, g.genGlobal(g.opt.InitialGlobal, g.pick(4))), "")
+	if g.opt.TCPConfigMap && g.chance(2, 3) {
+		g.emit(mkConfigMap(tcpConfigMapName, g.genTCPServices(nil, 1+g.pick(2))), "")
+	}
 	ning := 1 + g.pick(g.opt.MaxIngresses)
 	for i := 0; i < ning; i++ {
 		nn := ingNames[g.pick(len(ingNames))]
@@ -1197,6 +1208,19 @@ func (g *gen) genOp(name string) {
 		ncm := mkConfigMap(globalConfigMapName, g.genGlobal(cur.Data, 1+g.pick(2)))
 		ncm.UID = cur.UID
 		g.emit(ncm, "global config")
+	case "tcpcm_change":
+		cur, _ := g.objs[KConfigMap][tcpConfigMapName].(*api.ConfigMap)
+		if cur == nil {
+			g.emit(mkConfigMap(tcpConfigMapName, g.genTCPServices(nil, 1+g.pick(2))), "create tcp services")
+			return
+		}
+		if g.chance(1, 8) {
+			g.emitDelete(KConfigMap, tcpConfigMapName, "tcp services removed")
+			return
+		}
+		ncm := mkConfigMap(tcpConfigMapName, g.genTCPServices(cur.Data, 1+g.pick(2)))
+		ncm.UID = cur.UID
+		g.emit(ncm, "tcp services")
 	case "pod_term":
 		keys := g.keys(KPod)
 		if len(keys) == 0 {
@@ -1411,4 +1435,25 @@ func historyViolatesAvoid(cfg *RunConfig) string {
 		}
 	}
 	return ""
+}
+
+// genTCPServices changes n entries of the tcp-services ConfigMap:
+// <port> -> <ns/svc>:<port>:[PROXY]:[PROXY[-V1|V2]]:<crt secret>:<check interval>:<ca secret>
+func (g *gen) genTCPServices(cur map[string]string, n int) map[string]string {
+	data := map[string]string{}
+	for k, v := range cur {
+		data[k] = v
+	}
+	for i := 0; i < n; i++ {
+		port := pickStr(g, []string{"7100", "7101", "7102"})
+		if _, ok := data[port]; ok && g.chance(1, 3) {
+			delete(data, port)
+			continue
+		}
+		svc := pickStr(g, []string{"a/s1:8080", "a/s1:http", "a/s2:8080", "a/s2:9090", "b/s3:8081", "b/s1:8080", "a/missing:80", "a/s1:99", ""})
+		f := []string{svc, pickStr(g, []string{"", "", "PROXY"}), pickStr(g, []string{"", "", "PROXY", "PROXY-V1"}),
+			pickStr(g, []string{"", "", "a/tls1", "b/tls1", "a/missing"}), pickStr(g, []string{"", "", "-", "5s", "bad"}), pickStr(g, []string{"", "", "a/ca", "b/missing"})}
+		data[port] = strings.TrimRight(strings.Join(f, ":"), ":")
+	}
+	return data
 }
